@@ -7,6 +7,7 @@ package main
 
 import (
 	"fmt"
+	"sort"
 	"time"
 
 	"verif/engine"
@@ -36,6 +37,9 @@ type cfg struct {
 }
 
 // outChains are the output parameter sets of the parameter-switching masked transforms.
+// outScale is the log2 default scale of an output parameter set where it differs from the input's.
+var outScale = map[string]int{"ck40x": 34}
+
 var outChains = map[string]mp.Chain{
 	"mid": mp.ChainMid, "mixed": mp.ChainMixed, "ck40": mp.ChainCK40, "ck40x": mp.ChainCK40x, "ck40n5": mp.ChainCK40N5, "ck25n4": mp.ChainCK25N4,
 }
@@ -60,6 +64,23 @@ func (k cfg) name() string {
 	return s
 }
 
+// weight estimates the number of leaves of a configuration.
+func weight(k cfg) int {
+	w := mp.Histories(k.mode, k.n)
+	if k.mode == mp.LeftDeep {
+		w = 40 * k.n * k.n
+		for b := 1; b < k.bound; b++ {
+			w *= 4 * k.n
+		}
+	} else if k.bound > 0 {
+		w *= 8 * k.n
+		if k.bound > 1 {
+			w *= 4 * k.n
+		}
+	}
+	return w
+}
+
 func cover(c *engine.Chooser, k cfg) {
 	c.Cover("proto", k.proto)
 	c.Cover("chain", k.chain.Name)
@@ -79,9 +100,12 @@ func cover(c *engine.Chooser, k cfg) {
 }
 
 func scenarios(tier string) []engine.Scenario {
-	var out []engine.Scenario
+	out := smudgeScenarios(tier) // single-leaf scenarios first
 	seen := map[string]bool{}
-	for _, k := range catalogue(tier) {
+	cat := catalogue(tier)
+	// cheapest first: when the internal deadline strikes on a loaded machine, depth is lost, not breadth
+	sort.SliceStable(cat, func(i, j int) bool { return weight(cat[i]) < weight(cat[j]) })
+	for _, k := range cat {
 		k := k
 		nm := k.name()
 		if seen[nm] {
@@ -105,7 +129,6 @@ func scenarios(tier string) []engine.Scenario {
 		}
 		out = append(out, engine.Scenario{Name: nm, Bound: k.bound, Fn: fn})
 	}
-	out = append(out, smudgeScenarios(tier)...)
 	return out
 }
 
@@ -116,12 +139,18 @@ func main() {
 		Rule: "One scenario per (protocol, chain, NTT flag, parties N, input level, share level, output level, flooding sigma in {default, 2^10, 2^20}, BGV t in {97, 65537} / CKKS slots, scale, input scale, transform in {nil, identity, slot-wise scaling, permutation} x Decode/Encode flags). " +
 			"Inside, the merge lattice of the parties' shares (N<=3 quick, <=4 thorough: every pair at every step = every order and tree shape; N=5..8 left-deep orders within `bound` departures from index order), per merge one of 6 variants (plain, swapped, serialization hop of either operand, output aliasing either operand; <=1 non-plain per history). " +
 			"Every transition is compared with the coefficient-wise sum of the member shares; the terminal aggregate is fed to KeySwitch / GetShare / GetEncryption / Finalize / Transform and the result is read with an independent phase computation under the target key. " +
-			"Smudge scenarios: one leaf = 4 parties x 8..32 ciphertexts (>= 512 error coefficients), the error of every share isolated as share - c1*(s_in - s_out) (+ the mask).",
+			"Further non-free axes per leaf (sharing the deviation bound): how the parties' protocol objects were obtained (ShallowCopies of party 0's / all constructed / a chain of copies) and what the objects did before the judged run (nothing / a run at level 0 / a run at the maximum level with the same key objects / a run with other keys). " +
+			"Chains include conjugate-invariant rings (RLWE level and CKKS, even and odd log N); masked transforms also switch parameters (BGV: another chain; CKKS: another chain with another default scale, twice and half the ring degree, through the constructor and through WithParams); CKKS log-bound settings from security parameters 64/128/160; two chains with no slack at the documented minimum level. " +
+			"KeySwitch-shaped shares also travel through WriteTo/ReadFrom over fragmenting transports. BGV refresh/transform shares: the error of both halves is isolated per share (the re-encryption half separates into f(M) + t*e exactly). " +
+			"Smudge scenarios: one leaf = 4 parties (a constructed object, its ShallowCopy, a copy of the copy, a second constructed object; all reused over the rounds at changing levels) x 8..32 ciphertexts (>= 512 error coefficients), the error of every share isolated as share - c1*(s_in - s_out) (+ the mask).",
 		Assumptions: []string{
 			"hard noise bounds from the declared truncated Gaussians: per key-switch share floor(6*sqrt(sigma_fresh^2+sigma_flood^2)+0.5); leaves whose worst-case bound leaves the correctness budget (Q/8 at RLWE level, Q/(2t) for BGV, CKKS minimum level below GetMinimumLevelForRefresh) are out of scope",
 			"masked transforms are linear maps on the plaintext vector (the protocol adds f(m - sum M_i) and f(M_i)): 'slot-wise affine' is instantiated as slot-wise scaling by distinct constants, and permutations",
 			"out-of-place BGV Finalize/Transform: the caller gives the output ciphertext the input's metadata (the method documents no metadata handling); in-place use needs no such step",
 			"the smudging lower bound (pooled sigma >= 1/2 requested sigma over >= 512 coefficients) is the statistic prescribed for this property; its failure probability under the declared distribution is < 2^-100",
+			"shares containing rlwe.MetaData (PublicKeySwitchShare, RefreshShare) are not sent over fragmenting transports: MetaData.ReadFrom's single Read is a listed C08 finding",
+			"conjugate-invariant CKKS: a single slot (LogSlots=0) is left out (the encoder itself does not round-trip it)",
+			"protocol objects are used sequentially (sharing of scratch memory between ShallowCopies is C10's subject)",
 			"BGV encoder / CKKS encoder are trusted for message <-> plaintext polynomial (C07); decryption itself is the harness's own phase computation",
 		},
 		Scenarios:      scenarios,
